@@ -1680,4 +1680,97 @@ theorem Rxn.pyEq_iff (a b : Rxn) :
   simp only [Rxn.pyEq, Bool.and_eq_true, beq_iff_eq]
   tauto
 
+/-! ### the whole constructor (`makeFull`), reflexivity of `==`, refusal of negative totals -/
+
+theorem makeFull_explicit (rxns : List Rxn) (arg : SubstArg) (cs : List Check) (sort : Option Bool) :
+    RSys.makeFull rxns arg (some cs) none sort false =
+      match RSys.make rxns arg cs sort with
+      | .ok s => .ok s
+      | .error c => .error (.check c) := by
+  simp only [RSys.makeFull, RSys.make, Bool.false_and, Bool.false_eq_true, ↓reduceIte]
+  cases firstFailing ⟨rxns, (substancesOf rxns arg).1⟩ cs <;> rfl
+
+theorem makeFull_missing_ok {rxns : List Rxn} {arg : SubstArg} {checks dont : Option (List Check)} {sort : Option Bool}
+    {s : RSys} (h : RSys.makeFull rxns arg checks dont sort true = .ok s) :
+    rxns ≠ [] ∧ s.rxns = rxns ∧ s.substs.Perm (addMissing (substancesOf rxns arg).1 rxns) ∧
+    (sortApplies rxns arg sort = true → s.substs.Pairwise (fun a b => a.1 ≤ b.1)) ∧
+    (sortApplies rxns arg sort = false → s.substs = addMissing (substancesOf rxns arg).1 rxns) := by
+  have hne : rxns.isEmpty = false := by
+    cases hr : rxns.isEmpty
+    · rfl
+    · simp [RSys.makeFull, hr] at h
+  have hs : s = (if sortApplies rxns arg sort = true then
+        (⟨rxns, sortSubstances (addMissing (substancesOf rxns arg).1 rxns)⟩ : RSys)
+      else ⟨rxns, addMissing (substancesOf rxns arg).1 rxns⟩) := by
+    unfold sortApplies
+    cases checks with
+    | none =>
+      simp only [RSys.makeFull, Bool.true_and, hne, Bool.false_eq_true, ↓reduceIte] at h
+      have aux : ∀ (c : Prop) [Decidable c] (x : RSys),
+          (if c then Except.ok x else (Except.error MakeErr.anyCheck : Except MakeErr RSys)) = .ok s → s = x := by
+        intro c _ x hx
+        split at hx
+        · injection hx with hx; exact hx.symm
+        · simp at hx
+      cases dont <;> exact aux _ _ h
+    | some cs =>
+      cases dont with
+      | some d => simp [RSys.makeFull, hne] at h
+      | none =>
+        simp only [RSys.makeFull, Bool.true_and, hne, Bool.false_eq_true, ↓reduceIte] at h
+        split at h
+        · simp at h
+        · injection h with h; exact h.symm
+  refine ⟨by simpa using hne, ?_⟩
+  cases hd : sortApplies rxns arg sort
+  · simp only [hd, Bool.false_eq_true, ↓reduceIte] at hs; subst hs
+    exact ⟨rfl, List.Perm.refl _, by simp, fun _ => rfl⟩
+  · simp only [hd, ↓reduceIte] at hs; subst hs
+    exact ⟨rfl, sortSubstances_perm _, fun _ => sortSubstances_sorted _, by simp⟩
+
+theorem mem_okeys_addMissing (od : ODict) (rxns : List Rxn) (k : String) :
+    k ∈ okeys (addMissing od rxns) ↔ k ∈ okeys od ∨ ∃ r ∈ rxns, k ∈ r.keys := by
+  have e : ∀ L : List String, okeys (L.map fun k => (k, ({ name := k } : Subst))) = L := by
+    intro L
+    induction L with
+    | nil => rfl
+    | cons a t ih => simp only [okeys, List.map_cons, List.cons.injEq, true_and] at ih ⊢; exact ih
+  rw [addMissing, mem_okeys_odictUpdate, e]
+  simp only [List.mem_filter, allKeys, List.mem_flatMap]
+  constructor
+  · rintro (h | ⟨⟨r, hr, hk⟩, _⟩)
+    · exact Or.inl h
+    · exact Or.inr ⟨r, hr, hk⟩
+  · rintro (h | ⟨r, hr, hk⟩)
+    · exact Or.inl h
+    · by_cases hin : k ∈ okeys od
+      · exact Or.inl hin
+      · right
+        exact ⟨⟨r, hr, hk⟩, by simpa [okeys] using hin⟩
+
+theorem Rxn.pyEq_refl (r : Rxn) : r.pyEq r = true := by simp [Rxn.pyEq]
+
+theorem listPyEq_refl (l : List Rxn) : listPyEq l l = true := by
+  induction l with
+  | nil => rfl
+  | cons a t ih => simp [listPyEq, Rxn.pyEq_refl, ih]
+
+theorem SStoich.toStoich?_nonneg {s : SStoich} {t : Stoich} (h : s.toStoich? = some t) (k : String) : 0 ≤ s.get k := by
+  induction s generalizing t with
+  | nil => simp [SStoich.get]
+  | cons a u ih =>
+    obtain ⟨a1, a2⟩ := a
+    simp only [SStoich.toStoich?, List.mapM_cons] at h
+    by_cases ha : 0 ≤ a2
+    · simp only [ha, ↓reduceIte, Option.pure_def, Option.bind_eq_bind, Option.bind_some] at h
+      cases hu : List.mapM (fun kv : String × Int => if 0 ≤ kv.2 then some (kv.1, kv.2.toNat) else none) u with
+      | none => simp [hu] at h
+      | some t' =>
+        have := ih (t := t') (by simpa [SStoich.toStoich?] using hu)
+        simp only [SStoich.get, List.lookup_cons]
+        by_cases hk : k == a1
+        · simp [hk, ha]
+        · simp only [hk]; exact this
+    · simp [ha] at h
+
 end ChemModel.RSysGraph
